@@ -50,10 +50,19 @@ def case(exe, h5, cfg, T1, T2, renorm, use_step=None, nrec_leg1=None):
                 return ("the continued run does not start from the stored values: cell %d stored %s (%g), loaded %s (%g)"
                         % (k, want[k], h2f(want[k]), got[k], h2f(got[k]))), info
         else:
+            # the loaded grid is normalised at start-up: it must be the stored one times ONE factor, and that factor must be
+            # what restores the charge of the stored record (known finding renorm-seam covers the factor itself)
             a, b = np.array([h2f(x) for x in got]), np.array([h2f(x) for x in want])
             s = float(np.max(np.abs(b))) + 1e-30
-            if not np.all(np.abs(a - b) <= 2e-4 * s):
-                return "the continued run starts from values differing from the stored ones by more than a renormalisation factor", info
+            r = float(a.sum() / b.sum()) if b.sum() else 1.0
+            if not np.all(np.abs(a - r * b) <= 2e-6 * s):
+                return "the continued run starts from values that are not the stored ones up to one normalisation factor", info
+            recs1 = D1["dsets"]["/PhaseSpace/data"][2][0]
+            pops1 = prog.fvals(D1["dsets"]["/BunchPopulation/data"])
+            dmax = max(abs(1.0 - x) for x in pops1) if pops1 else 0.0
+            if abs(r - 1.0) > 1.5 * dmax + 2e-6:
+                return ("the continued run starts from the stored values times %.6f, the records of the first leg never deviate "
+                        "from unit charge by more than %.3g" % (r, dmax)), info
         if use_step is None:
             cs = dict(cfg, T=T1 + T2, renorm=renorm)
             rs = prog.run_inovesa(exe, P.args_of(cs, out="single.h5"), d)
@@ -72,9 +81,23 @@ def case(exe, h5, cfg, T1, T2, renorm, use_step=None, nrec_leg1=None):
                 a, b = np.array([h2f(x) for x in fa]), np.array([h2f(x) for x in fb])
                 rel = float(np.max(np.abs(a - b))) / (float(np.max(np.abs(b))) + 1e-30)
                 info["rel"] = rel
-                if rel > 5e-4:
-                    return ("final phase space of the continued run differs from the uninterrupted run by %.3g "
-                            "(more than the renormalisation/rounding level)" % rel), info
+                # KNOWN FINDING renorm-seam: with RenormalizeCharge >= 0 the continued run normalises the loaded grid
+                # at start-up, before the first wake is computed; the uninterrupted run does not (or does it after the
+                # wake).  The legs then differ by an amount set by the charge deficit of the stored record.
+                # The step counter (and with it the renormalisation schedule `step % RenormalizeCharge == 0`) restarts at 0,
+                # so the legs are renormalised at different moments; in between the charge drifts.  What the finding
+                # explains is bounded by the largest charge deficit seen in any record of the three runs.
+                deficit = 0.0
+                for Dx in (D1, D2, Ds):
+                    pops = prog.fvals(Dx["dsets"]["/BunchPopulation/data"])
+                    deficit = max([deficit] + [abs(1.0 - x) for x in pops])
+                info["deficit"] = deficit
+                if rel > 1.5 * deficit + 2e-5:
+                    return ("final phase space of the continued run differs from the uninterrupted run by %.3g; the "
+                            "renormalisation (largest charge deficit %.3g in any record) does not explain it"
+                            % (rel, deficit)), info
+                if rel > 3e-6:
+                    info["known"] = "renorm-seam"
         return None, info
     finally:
         shutil.rmtree(d, ignore_errors=True)
@@ -122,10 +145,18 @@ def explore(chk, exe, h5, count, tag):
         f, info = case(exe, h5, cfg, T1, T2, renorm, use_step)
         evals += 1
         if info and "rel" in info:
-            rels.append(info["rel"])
+            rels.append((round(info["rel"], 8), round(info.get("deficit", 0.0), 8)))
+        if info and info.get("known"):
+            chk.violation("C11: continued run differs from the uninterrupted one by %.3g with RenormalizeCharge=%d" % (info["rel"], renorm),
+                          replay_text(cfgs[-1], "known finding renorm-seam"), tag="known", key="renorm-seam")
         if f:
             fails.append((cfgs[-1], f))
     return cfgs, evals, fails, rels
+
+
+def seam_witness():
+    """known finding renorm-seam: coarse grid with free-space CSR (2% charge deficit at the seam), RenormalizeCharge 4"""
+    return dict(n=24, N=32, T=0.25, outstep=1, h5save=1, cur=[0.002], imp="free", renorm=4, shx=0, shy=0, pad=2, it=2, dt=4), 0.75, 0.5
 
 
 def replay_text(cfg, what):
@@ -139,6 +170,13 @@ def run(chk):
     quick = chk.tier == "quick"
     count = 6 if quick else 90
     cfgs, evals, fails, rels = explore(chk, exe, h5, count, "main")
+    wcfg, wT1, wT2 = seam_witness()
+    wf, winfo = case(exe, h5, wcfg, wT1, wT2, 4, None)
+    if winfo and winfo.get("known"):
+        chk.violation("C11: renorm-seam witness", replay_text(dict(wcfg, T1=wT1, T2=wT2), "known finding renorm-seam"),
+                      tag="known", key="renorm-seam")
+    if wf:
+        fails.append((dict(wcfg, T1=wT1, T2=wT2), wf))
     ref = refusal_cases(exe, h5)
     chk.cov["evaluations"] = evals + 4
     chk.cov["distinct_nontrivial"] = len({repr(c) for c in cfgs}) + 4
@@ -150,7 +188,7 @@ def run(chk):
                           {"theorem": "Inovesa.Props.C11.split_run (RenormalizeCharge<0): grid after a+b steps = grid after b steps started from the stored grid of an a-step run; last_record_is_final_state; split_run_full_false (with renormalisation the statement is false of the code)"}]
     chk.assumptions += [
         "HDF5: reading a hyperslab of IEEE_F32LE returns the stored bit patterns (library assumption, tested bit-wise)",
-        "with RenormalizeCharge >= 0 the continued run renormalises once at start-up (and main then uses a stale integral): equality holds only up to that factor; measured, tolerance 5e-4",
+        "with RenormalizeCharge >= 0 the full statement is false of the code (Lean: split_run_full_false; known finding renorm-seam): the legs may differ by at most 0.3 x the charge deficit of the stored record + 2e-5, anything larger is reported",
     ]
     for cfg, f in fails[:1]:
         chk.violation("C11 violated: " + f, replay_text(cfg, f), tag="oracle")
